@@ -1,0 +1,196 @@
+//go:build verif
+
+// Verification hooks (build tag `verif`). This file only ADDS read-only accessors; no call
+// site anywhere in the package refers to it, so with the tag off the package is unchanged.
+package yqlib
+
+import (
+	"crypto/sha256"
+	"encoding/hex"
+	"fmt"
+	"sort"
+)
+
+// VerifOp is a snapshot of one operation type singleton.
+type VerifOp struct {
+	Var                  string
+	Type                 string
+	NumArgs              uint
+	Precedence           uint
+	CheckForPostTraverse bool
+}
+
+// VerifRule is a snapshot of one lexer rule.
+type VerifRule struct {
+	Name    string
+	Pattern string
+}
+
+func verifOpVars() map[string]*operationType {
+	return map[string]*operationType{
+		"addAssignOpType":           addAssignOpType,
+		"addOpType":                 addOpType,
+		"allConditionOpType":        allConditionOpType,
+		"allOpType":                 allOpType,
+		"alternativeOpType":         alternativeOpType,
+		"andOpType":                 andOpType,
+		"anyConditionOpType":        anyConditionOpType,
+		"anyOpType":                 anyOpType,
+		"assignAliasOpType":         assignAliasOpType,
+		"assignAnchorOpType":        assignAnchorOpType,
+		"assignAttributesOpType":    assignAttributesOpType,
+		"assignCommentOpType":       assignCommentOpType,
+		"assignOpType":              assignOpType,
+		"assignStyleOpType":         assignStyleOpType,
+		"assignTagOpType":           assignTagOpType,
+		"assignVariableOpType":      assignVariableOpType,
+		"blockOpType":               blockOpType,
+		"captureOpType":             captureOpType,
+		"changeCaseOpType":          changeCaseOpType,
+		"collectObjectOpType":       collectObjectOpType,
+		"collectOpType":             collectOpType,
+		"columnOpType":              columnOpType,
+		"compareOpType":             compareOpType,
+		"containsOpType":            containsOpType,
+		"createMapOpType":           createMapOpType,
+		"decodeOpType":              decodeOpType,
+		"delPathsOpType":            delPathsOpType,
+		"deleteChildOpType":         deleteChildOpType,
+		"divideOpType":              divideOpType,
+		"emptyOpType":               emptyOpType,
+		"encodeOpType":              encodeOpType,
+		"envOpType":                 envOpType,
+		"envsubstOpType":            envsubstOpType,
+		"equalsOpType":              equalsOpType,
+		"errorOpType":               errorOpType,
+		"evalOpType":                evalOpType,
+		"explodeOpType":             explodeOpType,
+		"expressionOpType":          expressionOpType,
+		"filterOpType":              filterOpType,
+		"flattenOpType":             flattenOpType,
+		"formatDateTimeOpType":      formatDateTimeOpType,
+		"fromEntriesOpType":         fromEntriesOpType,
+		"fromUnixOpType":            fromUnixOpType,
+		"getAliasOpType":            getAliasOpType,
+		"getAnchorOpType":           getAnchorOpType,
+		"getCommentOpType":          getCommentOpType,
+		"getDocumentIndexOpType":    getDocumentIndexOpType,
+		"getFileIndexOpType":        getFileIndexOpType,
+		"getFilenameOpType":         getFilenameOpType,
+		"getKeyOpType":              getKeyOpType,
+		"getKindOpType":             getKindOpType,
+		"getParentOpType":           getParentOpType,
+		"getPathOpType":             getPathOpType,
+		"getStyleOpType":            getStyleOpType,
+		"getTagOpType":              getTagOpType,
+		"getVariableOpType":         getVariableOpType,
+		"groupByOpType":             groupByOpType,
+		"hasOpType":                 hasOpType,
+		"isKeyOpType":               isKeyOpType,
+		"joinStringOpType":          joinStringOpType,
+		"keysOpType":                keysOpType,
+		"lengthOpType":              lengthOpType,
+		"lineOpType":                lineOpType,
+		"loadOpType":                loadOpType,
+		"loadStringOpType":          loadStringOpType,
+		"mapOpType":                 mapOpType,
+		"mapValuesOpType":           mapValuesOpType,
+		"matchOpType":               matchOpType,
+		"maxOpType":                 maxOpType,
+		"minOpType":                 minOpType,
+		"moduloOpType":              moduloOpType,
+		"multiplyAssignOpType":      multiplyAssignOpType,
+		"multiplyOpType":            multiplyOpType,
+		"notEqualsOpType":           notEqualsOpType,
+		"notOpType":                 notOpType,
+		"nowOpType":                 nowOpType,
+		"omitOpType":                omitOpType,
+		"orOpType":                  orOpType,
+		"pickOpType":                pickOpType,
+		"pipeOpType":                pipeOpType,
+		"pivotOpType":               pivotOpType,
+		"recursiveDescentOpType":    recursiveDescentOpType,
+		"reduceOpType":              reduceOpType,
+		"referenceOpType":           referenceOpType,
+		"reverseOpType":             reverseOpType,
+		"selectOpType":              selectOpType,
+		"selfReferenceOpType":       selfReferenceOpType,
+		"setPathOpType":             setPathOpType,
+		"shortPipeOpType":           shortPipeOpType,
+		"shuffleOpType":             shuffleOpType,
+		"sortByOpType":              sortByOpType,
+		"sortKeysOpType":            sortKeysOpType,
+		"sortOpType":                sortOpType,
+		"splitDocumentOpType":       splitDocumentOpType,
+		"splitStringOpType":         splitStringOpType,
+		"stringInterpolationOpType": stringInterpolationOpType,
+		"subStringOpType":           subStringOpType,
+		"subtractAssignOpType":      subtractAssignOpType,
+		"subtractOpType":            subtractOpType,
+		"testOpType":                testOpType,
+		"toEntriesOpType":           toEntriesOpType,
+		"toNumberOpType":            toNumberOpType,
+		"toStringOpType":            toStringOpType,
+		"toUnixOpType":              toUnixOpType,
+		"traverseArrayOpType":       traverseArrayOpType,
+		"traversePathOpType":        traversePathOpType,
+		"trimOpType":                trimOpType,
+		"tzOpType":                  tzOpType,
+		"unionOpType":               unionOpType,
+		"uniqueByOpType":            uniqueByOpType,
+		"uniqueOpType":              uniqueOpType,
+		"valueOpType":               valueOpType,
+		"withDtFormatOpType":        withDtFormatOpType,
+		"withEntriesOpType":         withEntriesOpType,
+		"withOpType":                withOpType,
+	}
+}
+
+// VerifOpTable returns every operation type singleton, ordered by variable name.
+func VerifOpTable() []VerifOp {
+	vars := verifOpVars()
+	names := make([]string, 0, len(vars))
+	for n := range vars {
+		names = append(names, n)
+	}
+	sort.Strings(names)
+	out := make([]VerifOp, 0, len(names))
+	for _, n := range names {
+		o := vars[n]
+		out = append(out, VerifOp{Var: n, Type: o.Type, NumArgs: o.NumArgs, Precedence: o.Precedence, CheckForPostTraverse: o.CheckForPostTraverse})
+	}
+	return out
+}
+
+// VerifLexerRules returns the lexer rule table in order.
+func VerifLexerRules() []VerifRule {
+	out := make([]VerifRule, 0, len(participleYqRules))
+	for _, r := range participleYqRules {
+		out = append(out, VerifRule{Name: r.Name, Pattern: r.Pattern})
+	}
+	return out
+}
+
+// VerifGlobalFingerprint hashes every piece of process-global state an evaluation can read:
+// operation type singletons, the lexer rule table, configured preferences and switches.
+// A monitor asserts that it is the same before and after every evaluation.
+func VerifGlobalFingerprint() string {
+	h := sha256.New()
+	for _, o := range VerifOpTable() {
+		fmt.Fprintf(h, "op|%s|%s|%d|%d|%v\n", o.Var, o.Type, o.NumArgs, o.Precedence, o.CheckForPostTraverse)
+	}
+	for i, r := range VerifLexerRules() {
+		fmt.Fprintf(h, "rule|%d|%s|%s\n", i, r.Name, r.Pattern)
+	}
+	fmt.Fprintf(h, "yaml|%+v\n", ConfiguredYamlPreferences)
+	fmt.Fprintf(h, "json|%+v\n", ConfiguredJSONPreferences)
+	fmt.Fprintf(h, "xml|%+v\n", ConfiguredXMLPreferences)
+	fmt.Fprintf(h, "csv|%+v\n", ConfiguredCsvPreferences)
+	fmt.Fprintf(h, "tsv|%+v\n", ConfiguredTsvPreferences)
+	fmt.Fprintf(h, "props|%+v\n", ConfiguredPropertiesPreferences)
+	fmt.Fprintf(h, "lua|%+v\n", ConfiguredLuaPreferences)
+	fmt.Fprintf(h, "loadyaml|%+v\n", LoadYamlPreferences)
+	fmt.Fprintf(h, "interp|%v\n", StringInterpolationEnabled)
+	fmt.Fprintf(h, "parser|%v\n", ExpressionParser != nil)
+	return hex.EncodeToString(h.Sum(nil))
+}
